@@ -34,13 +34,15 @@ type topo struct {
 	Pipes   []pipeCfg           `json:"pipelines"`
 	Exts    []string            `json:"extensions"`
 	ExtDeps map[string][]string `json:"extension_dependencies,omitempty"`
+	// Rnd documents the support matrix drawn for connector type "rnd" (rows: from logs, traces, metrics, profiles)
+	Rnd string `json:"rnd_connector_matrix,omitempty"`
 	// reference verdict
 	Invalid string `json:"invalid,omitempty"`
 }
 
 func isConn(id string) bool {
 	switch typeOf(id) {
-	case "fwd", "conv", "l2m", "forward", "asym":
+	case "fwd", "conv", "l2m", "forward", "asym", "rnd":
 		return true
 	}
 	return false
@@ -69,7 +71,16 @@ func genTopo(tp *simkit.Tape, small bool) topo {
 	recvPool := []string{"rcv/1", "rcv/2", "shr/1"}
 	procPool := []string{"proc/1", "proc/2", "ropr/1"}
 	expPool := []string{"exp/1", "exp/2", "mexp/1"}
-	connPool := []string{"fwd/1", "conv/1", "conv/2", "l2m/1", "forward/1", "asym/1", "asym/1"}
+	connPool := []string{"fwd/1", "conv/1", "conv/2", "l2m/1", "forward/1", "asym/1", "rnd/1", "rnd/2"}
+	// the support matrix of connector type "rnd" in this run: every cell drawn on its own (about 2 in 3 supported)
+	bits := tp.Draw(1 << 16)
+	bits2 := tp.Draw(1 << 16)
+	for i := 0; i < 4; i++ {
+		for j := 0; j < 4; j++ {
+			k := uint(i*4 + j)
+			rndMatrix[i][j] = bits>>k&1 == 1 || bits2>>k&1 == 1 && k%2 == 0
+		}
+	}
 	useConn := tp.Chance(2, 3)
 	names := "abcde"
 	for i := 0; i < np; i++ {
@@ -123,6 +134,16 @@ func genTopo(tp *simkit.Tape, small bool) topo {
 		if tp.Chance(1, 2) {
 			t.ExtDeps[t.Exts[i]] = append(t.ExtDeps[t.Exts[i]], t.Exts[tp.Draw(i)])
 		}
+	}
+	for i := 0; i < 4; i++ {
+		for j := 0; j < 4; j++ {
+			if rndMatrix[i][j] {
+				t.Rnd += "x"
+			} else {
+				t.Rnd += "."
+			}
+		}
+		t.Rnd += " "
 	}
 	t.Invalid = t.validate()
 	return t
@@ -553,7 +574,7 @@ func kindOfKey(k string) string {
 }
 
 var svcReal = []string{"service.New / Start / Shutdown", "service/internal/graph (node creation, edges, topological order, capabilities and fan-out nodes)", "service/internal/builders", "service/extensions (dependency order)", "internal/fanoutconsumer", "internal/sharedcomponent", "service/internal/status reporter", "service telemetry (logs off, metrics level none)"}
-var svcStub = []string{"leaf components: instrumented stub receivers, processors (mutating / read-only), exporters, connectors (forwarding, all-pairs converting, logs->metrics only, an asymmetric several-pairs matrix) and extensions, created through real factories"}
+var svcStub = []string{"leaf components: instrumented stub receivers, processors (mutating / read-only), exporters, connectors (forwarding, all-pairs converting, logs->metrics only, an asymmetric several-pairs matrix, a matrix drawn cell by cell per run) and extensions, created through real factories"}
 
 var HarnessC09 = simkit.Harness{
 	Prop: "C09", Name: "svc/c09", Run: runC09, StepTimeout: 20e9, Real: svcReal, Stub: svcStub, HashInsensitive: true,
